@@ -17,7 +17,7 @@ import (
 func init() {
 	register(&Property{
 		ID:          "C07",
-		Explanation: "Decides completeness of the sanitiser chain on every data path from an untrusted name to a filesystem call. (R07.1, K6) A module-wide field-based forward taint starts at every load of a string / []string field of the struct that bencode.DecodeBytes fills in metainfo.NewInfo (infoType.Name, NameUTF8, file.Path, PathUTF8, Attr: resolved from the decode destination type) and carries the must-set of sanitisers passed: (a) the dot-dot test (must-fact strings.TrimSpace(c) != \"..\" on the value, or the universal fact of a complete validation loop over the decoded slice, or the scalar fact on the decoded field) and (b) cleanName (whose result is shown to pass replaceSeparator). Every store into metainfo.File.Path (what allocator -> Storage.Open consumes) and every path argument of a path-taking os / filepath / ioutil function in library packages that the taint reaches requires both. (R07.2) The same engine from loads of archive/tar.Header string fields requires, at every path-taking call, the fact strings.HasPrefix(name, dir+separator)==true with name = filepath.Join(dir, ...) and dir = filepath.Clean(_). (R07.3) The store of a File path in the multi-file loop requires 'padding, or the joined path was absent from the duplicate map and is inserted under the same key', the map being created outside the loop. (R07.4) Inventory of library functions calling path-taking functions; members outside the frozen list are accepted only when the engine shows every path argument untainted or fully sanitised. NOT decided: the string semantics of the sanitisers (filepath.Join, strings.ToValidUTF8, strings.Map are trusted library calls), over-long names, Windows separators inside one component.",
+		Explanation: "Decides completeness of the sanitiser chain on every data path from an untrusted name to a filesystem call. (R07.1, K6) A module-wide field-based forward taint starts at every load of a string / []string field of the struct that bencode.DecodeBytes fills in metainfo.NewInfo (infoType.Name, NameUTF8, file.Path, PathUTF8, Attr: resolved from the decode destination type) and carries the must-set of sanitisers passed: (a) the dot-dot test (must-fact strings.TrimSpace(c) != \"..\" on the value, or the universal fact of a complete validation loop over the decoded slice, or the scalar fact on the decoded field; the test may sit in a helper such as validateNames() whose success return establishes the fact for its caller, and the consumer in a helper such as constructFiles() whose parameter is judged at its call sites) and (b) cleanName (whose result is shown to pass replaceSeparator). Every store into metainfo.File.Path (what allocator -> Storage.Open consumes) and every path argument of a path-taking os / filepath / ioutil function in library packages that the taint reaches requires both. (R07.2) The same engine from loads of archive/tar.Header string fields requires, at every path-taking call, the fact strings.HasPrefix(name, dir+separator)==true with name = filepath.Join(dir, ...) and dir = filepath.Clean(_). (R07.3) The store of a File path in the multi-file loop requires 'padding, or the joined path was absent from the duplicate map and is inserted under the same key', the map being created outside the loop. (R07.4) Inventory of library functions calling path-taking functions; members outside the frozen list are accepted only when the engine shows every path argument untainted or fully sanitised. NOT decided: the string semantics of the sanitisers (filepath.Join, strings.ToValidUTF8, strings.Map are trusted library calls), over-long names, Windows separators inside one component.",
 		RuleText:    commonRuleText,
 		Assumptions: append([]string{
 			"taint abstraction: struct fields by field object (any base), locals / slices / maps / channels by SSA value and the field or local they live in; numbers, booleans and error values do not carry names; a library function returns (and a library method with a concrete pointer receiver keeps in that receiver) data derived from any tainted argument and calls back module closures with it; data written through an interface method (io.Writer.Write, hash.Hash.Write) leaves the name domain and is not followed",
@@ -235,38 +235,27 @@ func runC07(c *kit.Ctx) {
 		}
 		return l.V
 	}
-	dotCF := map[*ssa.Function]*kit.ClassFacts{}
-	dotOf := func(fn *ssa.Function) *kit.ClassFacts {
-		if cf, ok := dotCF[fn]; ok {
-			return cf
-		}
-		var cf *kit.ClassFacts
-		if fn != nil && inPkg(fn, c, "internal/metainfo") {
-			cf = c.NewClassFacts(fn, dotSubject)
-			if os.Getenv("RAINLINT_CF") != "" {
-				fmt.Fprintf(os.Stderr, "dotdot classfacts %s:\n%s", fn.Name(), cf.Debug())
-			}
-		}
-		dotCF[fn] = cf
-		return cf
-	}
+	// the test may live in a helper called earlier on every path (validateNames)
+	// and the consumer in another helper (constructFiles): facts are evaluated
+	// across the function boundaries of package metainfo
+	inMetainfo := func(fn *ssa.Function) bool { return fn != nil && inPkg(fn, c, "internal/metainfo") }
+	dotDeep := c.NewDeepFacts(dotSubject, inMetainfo)
 	isStr := func(t types.Type) bool {
 		b, ok := t.Underlying().(*types.Basic)
 		return ok && b.Info()&types.IsString != 0
 	}
 	useBitsA := func(v ssa.Value, use ssa.Instruction) uint {
-		cf := dotOf(use.Parent())
-		if cf == nil || cf.Sites() == 0 {
+		if !inMetainfo(use.Parent()) {
 			return 0
 		}
 		if isStr(v.Type()) {
-			if cf.Holds(v, use) {
+			if dotDeep.Holds(v, use) {
 				return bitDot
 			}
 			return 0
 		}
 		if sl, ok := v.Type().Underlying().(*types.Slice); ok && isStr(sl.Elem()) {
-			if cf.HoldsForElems(v, use) {
+			if dotDeep.HoldsForElems(v, use) {
 				return bitDot
 			}
 		}
@@ -516,15 +505,22 @@ func runC07(c *kit.Ctx) {
 
 	// ---- R07.3 duplicates
 	{
+		fileT := c.Named("internal/metainfo", "File")
+		isFileSlice := func(t types.Type) bool {
+			sl, ok := t.Underlying().(*types.Slice)
+			return ok && derefNamed(sl.Elem()) == fileT
+		}
 		n := 0
 		for _, st := range fieldStores(c, fFilePath) {
-			if st.Fn != newInfo {
-				continue
+			// wherever the File list is built (NewInfo or a helper of it)
+			fn := st.Fn
+			if !inMetainfo(fn) {
+				continue // reported by R07.1
 			}
 			// the multi-file store: the same literal's Padding is not constant false
 			fa := st.Store.Addr.(*ssa.FieldAddr)
 			var padVal ssa.Value
-			kit.Instrs(newInfo, func(ins ssa.Instruction) {
+			kit.Instrs(fn, func(ins ssa.Instruction) {
 				if s2, ok := ins.(*ssa.Store); ok {
 					if fa2, ok := s2.Addr.(*ssa.FieldAddr); ok && fa2.X == fa.X && kit.Canon(fa2).Field == fFilePadding {
 						padVal = s2.Val
@@ -534,27 +530,27 @@ func runC07(c *kit.Ctx) {
 			// single-file literal: exactly one file, nothing to compare
 			inLoop := false
 			var files *kit.RangeLoop
-			kit.Instrs(newInfo, func(ins ssa.Instruction) {
+			kit.Instrs(fn, func(ins ssa.Instruction) {
 				s2, ok := ins.(*ssa.Store)
 				if !ok || s2.Block() != st.Store.Block() {
 					return
 				}
-				if ia, ok := s2.Addr.(*ssa.IndexAddr); ok && kit.Canon(ia.X).IsField(fInfoFiles) {
+				if ia, ok := s2.Addr.(*ssa.IndexAddr); ok && (kit.Canon(ia.X).IsField(fInfoFiles) || isFileSlice(ia.X.Type())) {
 					if l := kit.RangeLoopOf(ia.Index); l != nil {
 						inLoop, files = true, l
 					}
 				}
 			})
 			if !inLoop {
-				c.Present("R07.3", k.key(newInfo, "single file"), posOf(st.Store), "single-file torrent: one File, no duplicate possible")
+				c.Present("R07.3", k.key(fn, "single file"), posOf(st.Store), "single-file torrent: one File, no duplicate possible")
 				continue
 			}
 			n++
-			key := k.key(newInfo, "store non-padding File into Files[j]")
+			key := k.key(fn, "store non-padding File into Files[j]")
 			p := st.Val
 			pIns, _ := p.(ssa.Instruction)
 			var theMap ssa.Value
-			absent := c.AtomFlow(newInfo, func(a kit.Atom) bool {
+			absent := c.AtomFlow(fn, func(a kit.Atom) bool {
 				return a.IsFalse(func(e *kit.Expr) bool {
 					if e.Kind == "extract" && e.Idx == 1 && e.Args[0].Kind == "lookup" && e.Args[0].Args[1].V == p {
 						theMap = e.Args[0].Args[0].V
@@ -563,7 +559,7 @@ func runC07(c *kit.Ctx) {
 					return false
 				})
 			}, func(ins ssa.Instruction) bool { return ins == pIns })
-			fl := &kit.Flow{P: c.Prog, Fn: newInfo}
+			fl := &kit.Flow{P: c.Prog, Fn: fn}
 			fl.Edge = func(a kit.Atom) bool {
 				return padVal != nil && a.IsTrue(func(e *kit.Expr) bool { return e.V == padVal })
 			}
